@@ -888,29 +888,61 @@ func setKey(ign [][]any) string {
 	return strings.Join(ks, ",")
 }
 
+// classFor names the perturbation class a failure at loc is attributed to:
+// the class of the perturbation whose location shares the longest prefix
+// with loc (both classes when they tie).
+func classFor(loc []any, perts []pert) string {
+	if len(perts) == 1 {
+		return perts[0].Class
+	}
+	common := func(x, y []any) int {
+		n := 0
+		for n < len(x) && n < len(y) && diffref.ElemEq(x[n], y[n]) {
+			n++
+		}
+		return n
+	}
+	best, set := -1, map[string]bool{}
+	for _, p := range perts {
+		switch n := common(loc, p.Loc); {
+		case n > best:
+			best, set = n, map[string]bool{p.Class: true}
+		case n == best:
+			set[p.Class] = true
+		}
+	}
+	cs := make([]string, 0, len(set))
+	for c := range set {
+		cs = append(cs, c)
+	}
+	sort.Strings(cs)
+	return strings.Join(cs, ",")
+}
+
 // pair runs every ignore set on (a,b) and (b,a), both forms. The sets come
 // smallest first; a failure that already shows (same function, location and
 // discrepancy) with a proper subset of the ignore set is attributed to the
-// subset only, so each failure is reported under a minimal ignore set.
-func (e *evaluator) pair(a, b any, pertDesc string, pertClass string, ignSets [][][]any, doGen bool) {
+// subset only, so each failure is reported under a minimal ignore set. A
+// failure that needs a non-empty ignore set is caused by the ignore handling,
+// not by the perturbation: its perturbation coordinate is "-".
+func (e *evaluator) pair(a, b any, perts []pert, ignSets [][][]any, doGen bool) {
 	c := e.c
+	descs := make([]string, len(perts))
+	for i, p := range perts {
+		descs[i] = p.Desc
+	}
 	for dir := 0; dir < 2; dir++ {
 		x, y := a, b
-		desc := pertDesc
+		desc := strings.Join(descs, " + ")
 		if dir == 1 {
 			x, y = b, a
 			desc += " (swapped)"
 		}
 		deltas := diffref.Deltas(x, y)
 		seen := map[string]map[string]bool{} // form|setKey -> failure ids
-		baseOK := true
 		for _, ign := range ignSets {
 			if len(deltas) > 0 {
 				c.Nontrivial()
-			}
-			cls := pertClass
-			if len(ign) > 0 && baseOK {
-				cls = "-" // the pair is judged correctly without ignores: the perturbation is not the cause
 			}
 			simpleSigs := map[string]bool{}
 			for _, form := range []string{"simple", "gen"} {
@@ -920,9 +952,6 @@ func (e *evaluator) pair(a, b any, pertDesc string, pertClass string, ignSets []
 				fs := judge(c, form, x, y, deltas, ign)
 				ids := map[string]bool{}
 				seen[form+"|"+setKey(ign)] = ids
-				if form == "simple" && len(ign) == 0 && len(fs) > 0 {
-					baseOK = false
-				}
 				for _, f := range fs {
 					ids[f.id()] = true
 					attributed := false
@@ -942,13 +971,17 @@ func (e *evaluator) pair(a, b any, pertDesc string, pertClass string, ignSets []
 						c.Add("failures_attributed_to_smaller_ignore_set", 1)
 						continue
 					}
+					cls := "-"
+					if len(ign) == 0 {
+						cls = classFor(f.loc, perts)
+					}
 					sig := f.sig(cls, ign)
 					if form == "simple" {
 						simpleSigs[sig] = true
 					} else if !simpleSigs[sig] {
 						sig += "|form=gen-only"
 					}
-					c.Fail(sig, caseT{Fam: "diff", Form: form, A: gens.EncodeTree(x), B: gens.EncodeTree(y), Ign: ign, Pert: desc, Class: pertClass,
+					c.Fail(sig, caseT{Fam: "diff", Form: form, A: gens.EncodeTree(x), B: gens.EncodeTree(y), Ign: ign, Pert: desc, Class: cls,
 						Call: callText(f.fn, form, x, y, ign)}, size(x, y, ign, form), f.exp, f.obs)
 				}
 			}
@@ -977,19 +1010,33 @@ func ignoreSets(locs [][]any, keys []string, pairs string) [][][]any {
 	for _, k := range ks {
 		sets = append(sets, [][]any{all[k]})
 	}
+	// pairs are unordered sets, but the call takes them in an order: a pair
+	// of two multi-element paths is run in both orders (only those can reach
+	// the child-ignore bookkeeping twice), any other pair in sorted order.
+	addPair := func(k1, k2 string) {
+		if k2 < k1 {
+			k1, k2 = k2, k1
+		}
+		x, y := all[k1], all[k2]
+		sets = append(sets, [][]any{x, y})
+		if len(x) > 1 && len(y) > 1 {
+			sets = append(sets, [][]any{y, x})
+		}
+	}
 	switch pairs {
 	case "all":
 		for i := 0; i < len(ks); i++ {
 			for j := i + 1; j < len(ks); j++ {
-				sets = append(sets, [][]any{all[ks[i]], all[ks[j]]})
+				addPair(ks[i], ks[j])
 			}
 		}
 	case "cross":
+		var ids []string
 		seen := map[string]bool{}
 		for gi := 0; gi < len(groups); gi++ {
 			for gj := gi + 1; gj < len(groups); gj++ {
-				for ki, x := range groups[gi] {
-					for kj, y := range groups[gj] {
+				for ki := range groups[gi] {
+					for kj := range groups[gj] {
 						if ki == kj {
 							continue
 						}
@@ -997,20 +1044,19 @@ func ignoreSets(locs [][]any, keys []string, pairs string) [][][]any {
 						if kj < ki {
 							id = kj + "|" + ki
 						}
-						if seen[id] {
-							continue
+						if !seen[id] {
+							seen[id] = true
+							ids = append(ids, id)
 						}
-						seen[id] = true
-						sets = append(sets, [][]any{x, y})
 					}
 				}
 			}
 		}
-		// deterministic order
-		sort.SliceStable(sets[1+len(ks):], func(i, j int) bool {
-			s := sets[1+len(ks):]
-			return ignKey(s[i][0])+"|"+ignKey(s[i][1]) < ignKey(s[j][0])+"|"+ignKey(s[j][1])
-		})
+		sort.Strings(ids)
+		for _, id := range ids {
+			k := strings.SplitN(id, "|", 2)
+			addPair(k[0], k[1])
+		}
 	}
 	return sets
 }
@@ -1304,7 +1350,7 @@ func run(c *core.Ctx) {
 		ps := perturbations(a, keys)
 		fps := subFingerprints(a)
 		// identity pair: nothing differs, ignores must not invent anything
-		e.pair(a, gens.Clone(a), "identity", "identity", ignoreSets([][]any{{}}, keys, "none"), true)
+		e.pair(a, gens.Clone(a), []pert{{Class: "identity", Desc: "identity"}}, ignoreSets([][]any{{}}, keys, "none"), true)
 		for _, f := range fps {
 			sub := "subset"
 			if nodes(f) == nodes(a) {
@@ -1316,7 +1362,7 @@ func run(c *core.Ctx) {
 			c.Add("single_point_pairs", 1)
 			sets := ignoreSets(relevantLocs([][]any{p.Loc}, a, p.B), keys, "all")
 			c.Add("ignore_sets", int64(len(sets)))
-			e.pair(a, p.B, p.Desc, p.Class, sets, true)
+			e.pair(a, p.B, []pert{p}, sets, true)
 			if sampled < 2 && len(p.Loc) > 1 {
 				sampled++
 				c.Sample(map[string]any{"a": gens.Show(a), "b": gens.Show(p.B), "perturbation": p.Desc, "ignore_sets": len(sets),
@@ -1336,13 +1382,9 @@ func run(c *core.Ctx) {
 						continue
 					}
 					c.Add("two_point_pairs", 1)
-					cls := p.Class + "," + q.Class
-					if q.Class < p.Class {
-						cls = q.Class + "," + p.Class
-					}
 					sets := ignoreSets([][]any{p.Loc, q.Loc}, keys, "cross")
 					c.Add("ignore_sets", int64(len(sets)))
-					e.pair(a, q.B, p.Desc+" + "+q.Desc, cls, sets, false)
+					e.pair(a, q.B, []pert{p, q}, sets, false)
 				}
 			}
 		}
